@@ -326,12 +326,12 @@ static const std::vector<u16> kPollEcho = {
     0x1803,                                          //    mov r0,[r3]      (write REPLY0)
     0x57A0,                                          //    brr L
 };
-static std::vector<u16> IrqMain(bool write_disable_first) {
+static std::vector<u16> IrqMain(bool write_disable_first, u16 mod3 = 0x0180) {
     std::vector<u16> w;
     if (write_disable_first) { // S5: the DSP programs the interrupt-disable register (to "enabled") while the host may be sending
         w.insert(w.end(), {0x5E01, 0x80D4, 0x5E00, 0x0000, 0x1801}); // r1=&APBP_CFG ; r0=0 ; mov r0,[r1]
     }
-    w.insert(w.end(), {0x5E02, 0x80C2, 0x5E03, 0x80C0, 0x5E05, 0x8202, 0x5E04, 0x4000, 0x5E0D, 0x0800, 0x0037, 0x0180, 0x57F0});
+    w.insert(w.end(), {0x5E02, 0x80C2, 0x5E03, 0x80C0, 0x5E05, 0x8202, 0x5E04, 0x4000, 0x5E0D, 0x0800, 0x0037, mod3, 0x57F0});
     return w;
 }
 static const std::vector<u16> kIrqHandlerEcho = {0x1C02, 0x1885, 0x1803, 0x45C0};            // read CMD0 ; ack ICU ; write REPLY0 ; reti
@@ -553,6 +553,41 @@ inline std::vector<Scenario> Scenarios() {
                      return std::string();
                  },
                  160, true});
+    // S8 / S9: the mailbox interrupt routed to the other core lines (int1, int2) - same echo protocol, other enable register and vector
+    for (int line = 1; line <= 2; ++line)
+        v.push_back({line == 1 ? "S8-irq-echo-int1" : "S9-irq-echo-int2",
+                     {{0x0000, {0x4180, 0x0100}}, {(u32)(0x0006 + 8 * line), kIrqHandlerEcho}, {0x0100, IrqMain(false, (u16)(0x0080 | (0x0100 << line)))}},
+                     [line](Machine& m) { m.teakra->MMIOWrite((u16)(0x206 + 2 * line), 0x4000); },
+                     [](Machine& m, Obs& o) {
+                         for (u16 val : {(u16)0x0A11, (u16)0x0B22}) {
+                             HostSend(m, o, 0, val);
+                             if (!HostWaitReply(m, 0))
+                                 return;
+                             HostRecv(m, o, 0);
+                         }
+                         o.host_done = true;
+                     },
+                     [](Machine&, const Obs& o) { return InOrderOracle(o); }, 140, true});
+    // S10: the mailbox interrupt on the vectored line while another, masked, fixed line holds a latched request: the vectored
+    // request is still delivered (a masked request never blocks another line)
+    v.push_back({"S10-irq-echo-vectored-with-masked-int1",
+                 {{0x0000, {0x4180, 0x0100}}, {0x0200, kIrqHandlerEcho}, {0x0100, IrqMain(false, 0x0880)}},
+                 [](Machine& m) {
+                     m.teakra->MMIOWrite(0x20C, 0x4000);                                              // IRQ 14 -> vectored
+                     m.teakra->MMIOWrite(0x212 + 14 * 4, 0x0000), m.teakra->MMIOWrite(0x214 + 14 * 4, 0x0200); // its vector
+                     m.teakra->MMIOWrite(0x208, 0x0008);                                              // IRQ 3 -> int1 (masked in mod3)
+                     m.teakra->MMIOWrite(0x204, 0x0008);                                              // ... and requested
+                 },
+                 [](Machine& m, Obs& o) {
+                     for (u16 val : {(u16)0x0C33, (u16)0x0D44}) {
+                         HostSend(m, o, 0, val);
+                         if (!HostWaitReply(m, 0))
+                             return;
+                         HostRecv(m, o, 0);
+                     }
+                     o.host_done = true;
+                 },
+                 [](Machine&, const Obs& o) { return InOrderOracle(o); }, 140, true});
     // S7: a semaphore bit raised while the host masks it, another one raised and acknowledged, then the mask lifted: the still-set bit
     // must now be signalled (host callback) - the signal is a function of (semaphore AND NOT mask) at every moment
     v.push_back({"S7-semaphore-unmask-after-clear", {{0x0000, {0x4180, 0x0100}}, {0x0006, kSemHandler42}, {0x0100, kSemMain}}, route_irq14_to_int0,
@@ -858,7 +893,7 @@ inline void Run(const verif::Args& args, Result& res) {
                 blk.capped = completed < bound && local.violations.empty();
             },
             res);
-    res.rule = "eight two-thread harnesses (host thread issuing SendData/RecvData/ready polls/Set/Get/Clear/MaskSemaphore, with and without re-entrant "
+    res.rule = "eleven two-thread harnesses (host thread issuing SendData/RecvData/ready polls/Set/Get/Clear/MaskSemaphore, with and without re-entrant "
                "callbacks; DSP thread executing a real polling or interrupt-driven echo / semaphore program, one Run(1) per step) are run on the real code under a "
                "deterministic scheduler that owns every pthread_mutex_lock/unlock (ownership modelled, recursive mutexes recognised), every access to the "
                "interpreter's interrupt latches, every API-call and instruction boundary and a yield in every poll loop; every schedule with at most the stated "
